@@ -108,7 +108,8 @@ theorem bodyNode_unknown (body : DV) : bodyNode (strBytes "nosuch.Modifier") bod
   have h6 : (strBytes "nosuch.Modifier" == strBytes "method.Filter") = false := by decide
   have h7 : (strBytes "nosuch.Modifier" == strBytes "cookie.Filter") = false := by decide
   have h8 : (strBytes "nosuch.Modifier" == strBytes "verif.Probe") = false := by decide
-  simp [bodyNode, h1, h2, h3, h4, h5, h6, h7, h8]
+  have h9 : (strBytes "nosuch.Modifier" == strBytes "port.Filter") = false := by decide
+  simp [bodyNode, h1, h2, h3, h4, h5, h6, h7, h8, h9]
 
 /-! ### the structs, on the members `render` writes -/
 
@@ -201,6 +202,7 @@ def condMembers : Cond → List (Bytes × DV)
   | .query n v => [(fName, .str n), (fValue, .str v)]
   | .header n v => [(fName, .str n), (fValue, .str v)]
   | .cookie n v => [(fName, .str n), (fValue, .str v)]
+  | .port p => [(fPort, .num ⟨decide (p < 0), p.natAbs, false⟩)]
 
 theorem idx_filter_common (ps : List Bytes) : fieldIdx (fModifier :: fElse :: fScope :: ps) fModifier = some 0 ∧
     fieldIdx (fModifier :: fElse :: fScope :: ps) fElse = some 1 ∧ fieldIdx (fModifier :: fElse :: fScope :: ps) fScope = some 2 := by
@@ -266,8 +268,10 @@ def condMk : Cond → FilterSt → Cond
   | .query _ _ => fun s => .query s.a s.b
   | .header _ _ => fun s => .header s.a s.b
   | .cookie _ _ => fun s => .cookie s.a s.b
+  | .port p => fun _ => .port p
 
-theorem bodyNode_cond (c : Cond) (body : DV) : bodyNode (renderCond c).1 body = filterNode (condParams c) (condMk c) body := by
+theorem bodyNode_cond (c : Cond) (body : DV) (hc : c.isPort = false) :
+    bodyNode (renderCond c).1 body = filterNode (condParams c) (condMk c) body := by
   have u1 : (strBytes "url.Filter" == strBytes "fifo.Group") = false := by decide
   have u2 : (strBytes "url.Filter" == strBytes "priority.Group") = false := by decide
   have h1 : (strBytes "header.Filter" == strBytes "fifo.Group") = false := by decide
@@ -288,9 +292,9 @@ theorem bodyNode_cond (c : Cond) (body : DV) : bodyNode (renderCond c).1 body = 
   have c4 : (strBytes "cookie.Filter" == strBytes "header.Filter") = false := by decide
   have c5 : (strBytes "cookie.Filter" == strBytes "querystring.Filter") = false := by decide
   have c6 : (strBytes "cookie.Filter" == strBytes "method.Filter") = false := by decide
-  cases c <;> simp [renderCond, bodyNode, condParams, condMk, u1, u2, h1, h2, h3, q1, q2, q3, q4, m1, m2, m3, m4, m5, c1, c2, c3, c4, c5, c6]
+  cases c <;> simp_all [renderCond, bodyNode, condParams, condMk, Cond.isPort]
 
-theorem filterNode_rendered (c : Cond) (dt : DV) (de : Option DV) (scope : Scope) (n : Node) :
+theorem filterNode_rendered (c : Cond) (dt : DV) (de : Option DV) (scope : Scope) (n : Node) (hc : c.isPort = false) :
     filterNode (condParams c) (condMk c) (.obj (condMembers c ++ ([(fModifier, dt)] ++ elseMembers de ++ scopeMembers scope)) n)
       = .filter c scope dt.node (de.map DV.node) := by
   unfold filterNode decStruct
@@ -336,6 +340,7 @@ theorem filterNode_rendered (c : Cond) (dt : DV) (de : Option DV) (scope : Scope
     simp only [Option.bind_some, List.cons_append, List.nil_append] at h1 ⊢
     rw [h1]
     cases de <;> simp_all [condMk, elseNode]
+  | port p => simp [Cond.isPort] at hc
 
 /-! ### `fromJSON (render n) = n` -/
 
@@ -352,7 +357,7 @@ theorem annotKvs_renderElse (e : Option Node) : annotKvs (renderElse e) = elseMe
   cases e <;> simp [renderElse, annotKvs, elseMembers]
 
 theorem annotKvs_condMembers (c : Cond) : annotKvs (renderCond c).2 = condMembers c := by
-  cases c <;> simp [renderCond, annotKvs, annot, condMembers]
+  cases c <;> simp [renderCond, annotKvs, annot, condMembers, renderInt]
 
 theorem pairs_inInt64 : ∀ cs : List (Int × Node), fitsPList cs = true →
     ∀ e ∈ cs.map (fun pc => (pc.1, annot (render pc.2))), inInt64 e.1 := by
@@ -391,12 +396,13 @@ theorem node_annot_render : ∀ n : Node, fits n = true → (annot (render n)).n
     simp only [List.map_map, Function.comp_def, List.cons_append, List.nil_append] at this ⊢
     rw [this, ih]
   | .filter c scope t e, h => by
-    simp only [fits, Bool.and_eq_true] at h
-    have iht := node_annot_render t h.1
+    simp only [fits, Bool.and_eq_true, Bool.not_eq_true'] at h
+    have iht := node_annot_render t h.1.2
     have ihe := node_annot_renderOpt e h.2
-    simp only [render, annot, DV.node, annotKvs, nodeFromKvs_single, bodyNode_cond, annotKvs_append, annotKvs_renderScope,
+    have hnp := h.1.1
+    simp only [render, annot, DV.node, annotKvs, nodeFromKvs_single, bodyNode_cond _ _ hnp, annotKvs_append, annotKvs_renderScope,
       annotKvs_renderElse, annotKvs_condMembers, List.append_assoc]
-    have := filterNode_rendered c (annot (render t)) (e.map fun x => annot (render x)) scope
+    have := fun n => filterNode_rendered c (annot (render t)) (e.map fun x => annot (render x)) scope n hnp
     simp only [List.cons_append, List.nil_append] at this ⊢
     rw [this, iht]
     cases e with
